@@ -192,9 +192,12 @@ def get_engine(prop: str):
     if prop in _ENGINES:
         return _ENGINES[prop]
     import_scoda()
-    if prop in ("C04", "C11", "C16"):
+    if prop == "C04":
         from sim import seqworld
         eng = seqworld.ENGINES[prop]
+    elif prop in ("C11", "C16"):
+        from sim import famworld
+        eng = {"C11": famworld.C11Engine, "C16": famworld.C16Engine}[prop]
     elif prop == "C03":
         from sim import tokstream
         eng = tokstream.ENGINE
@@ -211,7 +214,7 @@ def _alarm(signum, frame):
     raise RunTimeout()
 
 
-RUN_TIMEOUT_S = int(os.environ.get("VERIF_RUN_TIMEOUT_S", "60"))
+RUN_TIMEOUT_S = int(os.environ.get("VERIF_RUN_TIMEOUT_S", "20"))
 
 
 def guarded(fn, *a, **kw):
@@ -244,6 +247,8 @@ def worker_chunk(prop, tier, base_seed, lo, hi, want_samples, digests_only=False
             r = guarded(eng.run_one, seed, tier, i)
         except RunTimeout:
             harness.append({"index": i, "seed": seed, "error": f"run exceeded {RUN_TIMEOUT_S}s wall"})
+            if len(harness) >= 2:
+                break
             continue
         except Exception:
             harness.append({"index": i, "seed": seed, "error": traceback.format_exc(limit=12)})
@@ -418,7 +423,7 @@ def run_batch(prop: str, tier: str, base_seed: int, total_runs: int, wall_budget
             agg["harness"].extend(res["harness"])
             for kind, tr in res["samples"]:
                 agg["samples"].setdefault(kind, tr)
-            if time.time() - t0 > wall_budget_s or len(agg["violations"]) >= 40:
+            if time.time() - t0 > wall_budget_s or len(agg["violations"]) >= 40 or len(agg["harness"]) >= 6:
                 if not stop_submitting and agg["submitted"] < total_runs:
                     agg["cut_short"] = True
                 stop_submitting = True
